@@ -488,3 +488,121 @@ pub fn write_evidence(ctx: &Ctx, report: &Report, meta: &EvidenceMeta, violation
         std::process::exit(2)
     });
 }
+
+
+// ---------------------------------------------------------------------------------------
+// libFuzzer campaigns (thorough tiers) and corpus replay (every tier)
+// ---------------------------------------------------------------------------------------
+
+#[derive(Serialize, Deserialize, Clone, Debug)]
+pub struct FuzzInput {
+    pub target: String,
+    pub bytes: Vec<u8>,
+}
+
+impl Ctx {
+    /// Replays every committed corpus file of `target` through the in-process oracle.
+    pub fn replay_corpus(&self, target: &'static str, report: &mut Report) {
+        let dir = verif_root().join("corpus").join(target);
+        let mut n = 0u64;
+        let mut files: Vec<_> = std::fs::read_dir(&dir).map(|d| d.filter_map(|e| e.ok()).map(|e| e.path()).collect()).unwrap_or_default();
+        files.sort();
+        for f in files {
+            let Ok(bytes) = std::fs::read(&f) else { continue };
+            n += 1;
+            if let Some(Err(fail)) = crate::fuzzing::replay(target, &bytes) {
+                if self.is_known(&fail.signature) {
+                    report.excluded_known += 1;
+                    *report.known_seen.entry(fail.signature.clone()).or_insert(0) += 1;
+                    continue;
+                }
+                let rf = ReplayFile {
+                    property: self.id.to_string(),
+                    part: format!("fuzz:{target}"),
+                    signature: fail.signature,
+                    message: fail.message,
+                    case: serde_json::to_value(FuzzInput { target: target.to_string(), bytes }).unwrap(),
+                };
+                let path = self.write_replay(&rf);
+                report.violations.push((rf, path));
+            }
+        }
+        report.evaluations += n;
+        report.parts.push(json!({"part": format!("corpus-replay:{target}"), "cases": n, "generator": "committed seed corpus, replayed in-process"}));
+    }
+
+    /// Runs a coverage-guided libFuzzer campaign of `runs` executions and turns saved crashes into replay files.
+    pub fn fuzz_campaign(&self, target: &'static str, runs: u64, max_len: u32, report: &mut Report) {
+        let work = verif_root().join("target").join("fuzzwork").join(format!("{}-{}-{}", target, self.id, std::process::id()));
+        let _ = std::fs::remove_dir_all(&work);
+        let _ = std::fs::create_dir_all(&work);
+        let script = verif_root().join("harness").join("fuzz").join("run.sh");
+        let t0 = std::time::Instant::now();
+        let out = std::process::Command::new("bash")
+            .arg(&script)
+            .args([target, &runs.to_string(), &self.seed.to_string(), &max_len.to_string(), work.to_str().unwrap()])
+            .output();
+        let out = match out {
+            Ok(o) if o.status.code() == Some(0) => o,
+            Ok(o) => {
+                eprintln!("fuzz campaign {target}: infrastructure failure ({:?})\n{}", o.status, String::from_utf8_lossy(&o.stderr));
+                std::process::exit(2)
+            }
+            Err(e) => {
+                eprintln!("fuzz campaign {target}: cannot start: {e}");
+                std::process::exit(2)
+            }
+        };
+        let txt = String::from_utf8_lossy(&out.stdout).to_string();
+        let mut execs = 0u64;
+        let mut crashes = 0u64;
+        for line in txt.lines() {
+            if let Some(n) = line.strip_prefix("FUZZ-EXECS ") {
+                execs = n.trim().parse().unwrap_or(0);
+            }
+            if let Some(p) = line.strip_prefix("FUZZ-CRASH ") {
+                let Ok(bytes) = std::fs::read(p.trim()) else { continue };
+                let name = std::path::Path::new(p.trim()).file_name().map(|s| s.to_string_lossy().to_string()).unwrap_or_default();
+                // slow-unit / oom / timeout artifacts are inconclusive, not violations
+                if !name.starts_with("crash-") {
+                    eprintln!("fuzz campaign {target}: libFuzzer saved {name} (inconclusive, not a violation)");
+                    continue;
+                }
+                let fail = match crate::fuzzing::replay(target, &bytes) {
+                    Some(Err(f)) => f,
+                    _ => Fail::new("fuzz:crash-not-reproduced-in-process", format!("libFuzzer saved {name} ({} bytes) but the in-process oracle passes on it", bytes.len())),
+                };
+                if self.is_known(&fail.signature) {
+                    report.excluded_known += 1;
+                    *report.known_seen.entry(fail.signature.clone()).or_insert(0) += 1;
+                    continue;
+                }
+                crashes += 1;
+                let rf = ReplayFile {
+                    property: self.id.to_string(),
+                    part: format!("fuzz:{target}"),
+                    signature: fail.signature,
+                    message: fail.message,
+                    case: serde_json::to_value(FuzzInput { target: target.to_string(), bytes }).unwrap(),
+                };
+                let path = self.write_replay(&rf);
+                report.violations.push((rf, path));
+            }
+        }
+        let _ = std::fs::remove_dir_all(&work);
+        report.evaluations += execs;
+        report.parts.push(json!({"part": format!("libfuzzer:{target}"), "cases": execs, "crashes": crashes, "wall_s": t0.elapsed().as_secs_f64(),
+            "generator": "coverage-guided libFuzzer (cargo-fuzz), semantic oracle inside the target, committed seed corpus, -len_control=0"}));
+        report.extra.insert(format!("fuzz_execs_{target}"), json!(execs));
+    }
+}
+
+/// Replay of a stored fuzz input (part name "fuzz:<target>").
+pub fn replay_fuzz(part: &str, case: &Value) -> Option<Result<(), Fail>> {
+    let target = part.strip_prefix("fuzz:")?;
+    let inp: FuzzInput = match serde_json::from_value(case.clone()) {
+        Ok(i) => i,
+        Err(e) => return Some(Err(Fail::new("replay:bad-file", e.to_string()))),
+    };
+    crate::fuzzing::replay(target, &inp.bytes)
+}
